@@ -272,10 +272,15 @@ impl LanguageServer for Server {
 impl Server {
     fn set_file_content(&mut self, uri: &Url, text: &str) {
         let path = UrlExt::to_file_path(uri);
-        let mut vfs = self.vfs.write().unwrap();
-        let file_id = vfs.assign_or_get_file_id(path);
+        let file_id = self.vfs.write().unwrap().assign_or_get_file_id(path);
         let text = Arc::from(text);
+        // Writing to the database waits until every snapshot has been dropped, and the tasks
+        // that own the snapshots take the vfs lock themselves: the vfs lock must not be held
+        // here, or a notification arriving while a task is still running deadlocks the server.
         self.host.set_file_content(file_id, text);
+        // No snapshot exists any more (only this thread creates them), so the database writes
+        // of set_root_file cannot block while the lock is held.
+        let mut vfs = self.vfs.write().unwrap();
         self.host.set_root_file(&mut *vfs, file_id);
     }
 
